@@ -6,7 +6,7 @@ import os, random, shutil, subprocess, time
 PROP = "C15"
 AREAS = ["sink", "archive"]
 THEOREMS = ["all_sites_propagate", "no_write_before_finalize", "finalize_ok_all_written", "write_fault_reported",
-            "fault_file_within_limit", "no_success_with_truncated_file", "cli_exit_code", "history_ok_all_written",
+            "fault_file_within_limit", "fault_leaves_prefix", "no_success_with_truncated_file", "cli_exit_code", "history_ok_all_written",
             "site_add_meta_needed", "site_add_data_needed", "site_fb_add_needed", "site_close_ser_needed",
             "site_ser_footer_needed", "site_ser_len_needed", "site_ser_flush_needed", "site_fin_flush_needed",
             "site_fin_close_needed", "site_cli_finalize_needed", "site_cli_create_needed", "close_flush_redundant"]
@@ -18,6 +18,11 @@ RULE = ("fault injection = soft RLIMIT_FSIZE with SIGXFSZ ignored (EFBIG at byte
         "for each of the generated histories EVERY static limit from 0 to size+2, plus histories with limits that move between "
         "calls, plus histories above 4 MiB so that the BufWriter flushes mid-way and parts above the capacity take the direct "
         "path). compared: Ok/Err of every call, of close, length + FNV-1a of the file after drop. "
+        "finalize level (extra_checks, harness `fin` cases): the whole create pipeline in-process, driven as ragc-cli's "
+        "create_archive drives it and ending in StreamingQueueCompressor::finalize, on 2 (quick) / 3 (thorough) small sample "
+        "sets under EVERY limit n in 0..size+2, and sampled limits on an archive above 4 MiB (thorough): n < size -> finalize "
+        "returns Err, n >= size -> Ok and the unlimited run's file; the model, run on the write sequence recovered from the "
+        "unlimited archive, must predict Ok/Err, file length and content of every run. "
         "CLI level (extra_checks): the release `ragc create -t 2` of /repo's working tree under `prlimit --fsize=n` for limits n in "
         "0..size+2 of small archives (every n when the time budget allows - always in the thorough tier; otherwise the last 11 "
         "offsets, the footer start, every part boundary and a stride through data and footer), and sampled limits on an "
@@ -57,6 +62,18 @@ def fnv(b):
     for x in b:
         h = ((h ^ x) * 0x100000001b3) & M64
     return h
+
+
+def prefix_fnvs(b, lens):
+    """FNV-1a of b[:n] for every n in lens, one pass"""
+    want = sorted(set(n for n in lens if 0 <= n <= len(b)))
+    out, h, j = {}, 0xcbf29ce484222325, 0
+    for n in want:
+        for x in b[j:n]:
+            h = ((h ^ x) * 0x100000001b3) & M64
+        j = n
+        out[n] = h
+    return out
 
 
 _dc = {}
@@ -473,7 +490,10 @@ def make_inputs(rng, d, kind):
 
 def limit_order(rng, size, fs, starts, big):
     """limits in priority order (all of 0..size+2 for small archives)"""
-    first = list(range(size - 8, size + 3)) + [0, 1, fs - 1, fs, fs + 1]
+    # the first 16 are run even when the machine is too slow for the budget: one of each kind of place
+    first = [size - 1, size, size - 8, size - 9, 0, fs, fs - 1, (fs + size - 8) // 2, fs // 2, size - 4, 1, size + 2,
+             starts[1] if len(starts) > 1 else 2, size - 2, fs + 1, size + 1]
+    first += list(range(size - 8, size + 3)) + [0, 1, fs - 1, fs, fs + 1]
     for s in starts[:40]:
         first += [s, s + 1]
     if big:
@@ -518,9 +538,6 @@ def cli_faults(ctx, budget_s):
             if rc != 0 or not full:
                 res.append(("harness", f"ragc create failed without a limit ({kind})", err[-600:], None))
                 continue
-            rc2, _, full2 = run_create(cli, inputs, os.path.join(d, "full2.agc"), None)
-            if full2 != full:
-                res.append(("harness", f"archive of {kind} is not deterministic with -t 2; file comparison for limits >= size skipped", "", None))
             size = len(full)
             ops, fs, starts = archive_ops(full)
             if ops is None:
@@ -588,7 +605,7 @@ def cli_faults(ctx, budget_s):
                 else:
                     if cls != "0":
                         res.append(("", "", "", (casename, implline, "[cli] create failed although the limit is not below the archive size")))
-                    elif data != full and full2 == full:
+                    elif data != full:
                         res.append(("", "", "", (casename, implline, "[cli] exit 0 but the file differs from the unlimited run's file")))
                 # model vs real: exit class (0 / not 0), file length, file is the prefix of the complete file
                 p = pred.get(n)
@@ -609,16 +626,123 @@ def cli_faults(ctx, budget_s):
     return res
 
 
+FIN_PARAMS = "31,60000,20,50,2,2147483648,0"      # the CLI's defaults, 2 threads
+
+
+def fin_faults(ctx, budget_s):
+    """the create pipeline in-process (harness `fin` cases: mk::create = what ragc-cli's create_archive does, ending in
+    StreamingQueueCompressor::finalize) under every limit the time budget allows; model on the recovered write sequence"""
+    res = []
+    rng = random.Random(ctx.seed ^ 0xF15)
+    work = os.path.join(vlib.CACHE, "tmp", f"c15-fin-{os.getpid()}")
+    shutil.rmtree(work, ignore_errors=True)
+    os.makedirs(work)
+    kinds = ["tiny", "small"] if ctx.tier == "quick" else ["tiny", "small", "three", "big"]
+    stats = []
+    old_tun = os.environ.get("GLIBC_TUNABLES")
+    os.environ["GLIBC_TUNABLES"] = "glibc.malloc.hugetlb=1"
+    try:
+        for kind in kinds:
+            d = os.path.join(work, kind)
+            inputs = make_inputs(rng, d, kind)
+            open(os.path.join(d, "order.txt"), "w").write("".join(os.path.basename(p) + "\n" for p in inputs))
+            t0 = time.time()
+            first = vlib.run_cases([vlib.harness_bin("c15", "dev")], [f"fin {d} {FIN_PARAMS} inf"], timeout=900, shards=1)[0]
+            t_one = time.time() - t0
+            g = fields(first)
+            if g.get("E") != "ok" or "P" not in g:
+                res.append(("harness", f"in-process create failed without a limit ({kind})", first[:400], None))
+                continue
+            full = open(g["P"], "rb").read()
+            os.unlink(g["P"])
+            size = len(full)
+            ops, fs, starts = archive_ops(full)
+            if ops is None:
+                res.append(("correspondence", f"archive layout ({kind})", str(fs), None))
+                continue
+            order = limit_order(rng, size, fs, starts, kind == "big")
+            share = budget_s / len(kinds)
+            # repeated in-process runs are far cheaper than the first one (the zstd contexts' memory is reused):
+            # every limit unless the machine is very slow
+            fit = int(share * 16 * 8 / max(t_one, 0.05))
+            count = len(order) if (t_one < 5 or fit >= len(order)) else max(64, fit)
+            limits = sorted(order[:count])
+            cases = [f"fin {d} {FIN_PARAMS} {n:x}" for n in limits]
+            out = vlib.run_cases([vlib.harness_bin("c15", "dev")], cases, timeout=3000)
+            full_fnv = fnv(full)
+            mcases, chunk = [], (4 if kind == "big" else 24)
+            for i in range(0, len(limits), chunk):
+                mcases.append("cli %x 1 code %s | %s" % (CAP, " ".join(ops), " ".join("%x" % n for n in limits[i:i + chunk])))
+            mout = vlib.run_model(PROP, mcases, timeout=3000)
+            pred = {}
+            for i, line in enumerate(mout):
+                gm = fields(line)
+                if "R" not in gm:
+                    res.append(("model", f"driver failed on a cli case ({kind})", line[:300], None))
+                    continue
+                if i == 0 and gm.get("S") != "%x.%x" % (size, full_fnv):
+                    res.append(("correspondence", f"model's complete file differs from the real archive (fin {kind})",
+                                f"model {gm.get('S')} real {size:x}.{full_fnv:x}", None))
+                for n, r in zip(limits[i * chunk:(i + 1) * chunk], gm["R"].split(",")):
+                    pred[n] = r
+            nfault = 0
+            flens = []
+            for line in out:
+                gi = fields(line)
+                if "F" in gi and gi["F"] != "none":
+                    flens.append(int(gi["F"].split(".")[0], 16))
+            pf = prefix_fnvs(full, flens + [size])
+            for n, c, line in zip(limits, cases, out):
+                gi = fields(line)
+                if "E" not in gi or "F" not in gi or gi["F"] == "none":
+                    res.append(("", "", "", (c, line[:300], "[finalize] the in-process create did not return (panic / crash) under a file size limit")))
+                    continue
+                flen = int(gi["F"].split(".")[0], 16)
+                is_prefix = flen <= size and gi["F"] == "%x.%x" % (flen, pf[flen])
+                kind_real = "full" if (is_prefix and flen == size) else ("prefix" if is_prefix else "differs")
+                if n < size:
+                    nfault += 1
+                    if gi["E"] == "ok":
+                        res.append(("", "", "", (c, line[:300], "[finalize] StreamingQueueCompressor::finalize returned Ok although the "
+                                                 f"archive could not be written completely: {flen} of {size} bytes on disk")))
+                else:
+                    if gi["E"] != "ok":
+                        res.append(("", "", "", (c, line[:300], "[finalize] create failed although the limit is not below the archive size")))
+                    elif kind_real != "full":
+                        res.append(("", "", "", (c, line[:300], "[finalize] Ok but the file differs from the unlimited run's file")))
+                p = pred.get(n)
+                if p is None:
+                    continue
+                pe, pfin, plen, pkind = p.split(":")
+                if pfin != gi["E"] or int(plen, 16) != flen or pkind != kind_real:
+                    res.append(("correspondence", f"model/C15 vs in-process create ({kind}, limit {n})",
+                                f"model finalize={pfin} len={int(plen, 16)} {pkind}; real {line[:120]} {kind_real}", None))
+            stats.append({"inputs": kind, "archive_size": size, "footer_start": fs, "parts": len(starts),
+                          "limits_run": len(limits), "limits_below_size": nfault,
+                          "every_limit_0_to_size_plus_2": len(limits) == size + 3, "seconds_per_create": round(t_one, 2)})
+    finally:
+        if old_tun is None:
+            os.environ.pop("GLIBC_TUNABLES", None)
+        else:
+            os.environ["GLIBC_TUNABLES"] = old_tun
+        shutil.rmtree(work, ignore_errors=True)
+    _STATE["fin"] = stats
+    return res
+
+
 def extra_checks(ctx):
-    default = 75 if ctx.tier == "quick" else 1500
-    budget = float(os.environ.get("VERIF_C15_CLI_BUDGET", default))
-    return cli_faults(ctx, budget)
+    quick = ctx.tier == "quick"
+    fin_budget = float(os.environ.get("VERIF_C15_FIN_BUDGET", 40 if quick else 900))
+    cli_budget = float(os.environ.get("VERIF_C15_CLI_BUDGET", 30 if quick else 900))
+    return fin_faults(ctx, fin_budget) + cli_faults(ctx, cli_budget)
 
 
 def extra_coverage(ctx):
     cli = _STATE.get("cli", [])
-    return {"cli_fault_runs": cli, "cli_runs_total": sum(x["limits_run"] for x in cli),
-            "cli_note": "limits run in priority order until the time budget (VERIF_C15_CLI_BUDGET seconds) is used up; "
+    fin = _STATE.get("fin", [])
+    return {"finalize_fault_runs": fin, "finalize_runs_total": sum(x["limits_run"] for x in fin),
+            "cli_fault_runs": cli, "cli_runs_total": sum(x["limits_run"] for x in cli),
+            "cli_note": "limits run in priority order until the time budget (VERIF_C15_FIN_BUDGET / VERIF_C15_CLI_BUDGET seconds) is used up; "
                         "every_limit_0_to_size_plus_2 says whether the enumeration was exhaustive for that archive"}
 
 
